@@ -33,6 +33,7 @@ structure Req where
   addr : Nat
   count : Nat
   lat : Nat
+  lost : Bool := false      -- the scripted world: the peer does not answer this request (the reply is lost)
   deriving Repr, DecidableEq, Inhabited
 
 /-- the lock discipline of `BaseModbusClient.execute` + `ModbusTransactionManager.execute` as a whole.
@@ -45,6 +46,8 @@ structure Req where
       outerPerKey key – client lock whole, one manager lock per key
       none            – no lock at all
       sendOnly        – no client lock, one manager lock held around the send only
+      lockOnlyWhenCold – the client lock is taken (around the connect only) only by a caller that sees no socket; a
+                        caller that sees one goes straight to the manager (seeded C15-03)
       leakOnFail      – both locks as shipped, but the client lock is NOT given back when the connect of
                         `BaseModbusClient.execute` fails (explicit acquire / try-finally with the connect in between) -/
 inductive LockScope where
@@ -56,14 +59,15 @@ inductive LockScope where
   | none
   | sendOnly
   | leakOnFail
+  | lockOnlyWhenCold
 
 inductive Op where
   | cacquire | preconnect | open | acquire | tid | connect | iopen | flush | send1 | send2 | wait | recv1 | recv2
-  | process | release | crelease
+  | process | release | crelease | peek
   deriving DecidableEq, Repr, Inhabited
 
 def Op.name : Op → String
-  | .cacquire => "acquire" | .crelease => "release"
+  | .cacquire => "acquire" | .crelease => "release" | .peek => "peek"
   | .preconnect => "connect" | .open => "open" | .iopen => "open" | .flush => "flush"
   | .acquire => "acquire" | .tid => "tid" | .connect => "connect"
   | .send1 => "send1" | .send2 => "send2" | .wait => "wait" | .recv1 => "recv" | .recv2 => "recv"
@@ -72,7 +76,7 @@ def Op.name : Op → String
 /-- operations before which the scheduler may pre-empt in the harness (every transport call and the lock calls);
     `tid` and `process` are plain Python code between two such calls -/
 def Op.isYield : Op → Bool
-  | .tid | .process => false
+  | .tid | .process | .peek => false
   | _ => true
 
 /-- the part of a transaction between the manager's lock operations -/
@@ -91,6 +95,9 @@ def txnOps (scope : LockScope) (r : Req) : List Op :=
   | .connectOutside | .perKey _ =>
       [.preconnect, .acquire, .tid, .connect, .flush, .send1, .send2] ++
       (List.replicate r.lat .wait ++ [.recv1, .recv2, .process, .release])
+  | .lockOnlyWhenCold =>
+      [.peek, .cacquire, .preconnect, .crelease, .acquire, .tid, .connect, .flush, .send1, .send2] ++
+      (List.replicate r.lat .wait ++ [.recv1, .recv2, .process, .release])
   | .none => .preconnect :: coreOps r
   | .sendOnly => [.preconnect, .tid, .connect, .flush, .acquire, .send1, .send2, .release] ++
       (List.replicate r.lat .wait ++ [.recv1, .recv2, .process])
@@ -101,7 +108,7 @@ def clientKey : Nat := 0
 /-- which manager lock a transaction takes -/
 def lockKey (scope : LockScope) (r : Req) : Option Nat :=
   match scope with
-  | .whole | .connectOutside | .connectLocked | .sendOnly | .leakOnFail => some 1
+  | .whole | .connectOutside | .connectLocked | .sendOnly | .leakOnFail | .lockOnlyWhenCold => some 1
   | .perKey key | .outerPerKey key => some (1 + key r)
   | .none => Option.none
 
@@ -269,6 +276,10 @@ def noteResp (l : List Nat) (unit : Nat) (resp : Bytes) : List Nat :=
   if resp.isEmpty then (if l.contains unit then l else l ++ [unit])
   else (if l.contains unit then l.erase unit else l)
 
+/-- the scripted world: what the peer produces while this request is being written never arrives if the request is
+    marked `lost` -/
+def answer (r : Req) (reply : Bytes) : Bytes := if r.lost then [] else reply
+
 /-! ### one scheduler step -/
 
 def lockAcquire (locks : Nat → Option (Nat × Nat)) (k t : Nat) : Option (Nat → Option (Nat × Nat)) :=
@@ -289,6 +300,9 @@ def raiseOut (s : State) (t : Nat) (th : Thread) (ops : List Op) (op : Op) (e : 
 
 /-- thread `t` (local state `th`, request `th.cur`) performs operation `op`; `ops` is what follows it -/
 def stepOp (scope : LockScope) (s : State) (t : Nat) (th : Thread) (ops : List Op) : Op → State
+  | .peek =>        -- (mutant) `if not self.socket:` — a caller that sees a socket skips the client lock and the connect
+    { s with threads := upd s.threads t { th with ops := if s.sock.isSome then ops.drop 3 else ops },
+             trace := (t, .peek) :: s.trace }
   | .cacquire =>    -- `with self._connect_lock:` in `BaseModbusClient.execute`
     match lockAcquire s.locks clientKey t with
     | Option.none => s        -- parked: somebody else holds the client lock
@@ -351,7 +365,7 @@ def stepOp (scope : LockScope) (s : State) (t : Nat) (th : Thread) (ops : List O
     { s with wire := s.wire ++ [⟨t, true, th.sconn, th.frame.take 7⟩],
              pending := upd s.pending th.sconn (serverWrite (s.pending th.sconn) (th.frame.take 7)).1,
              stream := upd s.stream th.sconn
-               (s.stream th.sconn ++ (serverWrite (s.pending th.sconn) (th.frame.take 7)).2),
+               (s.stream th.sconn ++ answer th.cur (serverWrite (s.pending th.sconn) (th.frame.take 7)).2),
              threads := upd s.threads t { th with ops := ops }, trace := (t, .send1) :: s.trace }
   | .send2 =>
     match s.sock with
@@ -359,14 +373,14 @@ def stepOp (scope : LockScope) (s : State) (t : Nat) (th : Thread) (ops : List O
       { s with wire := s.wire ++ [⟨t, false, th.sconn, th.frame.drop 7⟩],
                pending := upd s.pending th.sconn (serverWrite (s.pending th.sconn) (th.frame.drop 7)).1,
                stream := upd s.stream th.sconn
-                 (s.stream th.sconn ++ (serverWrite (s.pending th.sconn) (th.frame.drop 7)).2),
+                 (s.stream th.sconn ++ answer th.cur (serverWrite (s.pending th.sconn) (th.frame.drop 7)).2),
                threads := upd s.threads t { th with ops := ops }, trace := (t, .send2) :: s.trace }
     | Option.none =>   -- `_recv`: `if not self.socket: raise ConnectionException` (somebody closed the client)
       raiseOut
         { s with wire := s.wire ++ [⟨t, false, th.sconn, th.frame.drop 7⟩],
                  pending := upd s.pending th.sconn (serverWrite (s.pending th.sconn) (th.frame.drop 7)).1,
                  stream := upd s.stream th.sconn
-                   (s.stream th.sconn ++ (serverWrite (s.pending th.sconn) (th.frame.drop 7)).2) }
+                   (s.stream th.sconn ++ answer th.cur (serverWrite (s.pending th.sconn) (th.frame.drop 7)).2) }
         t th ops .send2 .modbusExc
   | .wait => { s with threads := upd s.threads t { th with ops := ops }, trace := (t, .wait) :: s.trace }
   | .recv1 =>
